@@ -330,7 +330,7 @@ pub fn run(seed: u64, thorough: bool, out_dir: &Path, scratch: &Path) -> Out {
         *out.stats.entry("freezer_write_points".into()).or_default() += n_fz;
         let mut points: Vec<(&str, u64)> = vec![];
         for p in 1..=n_db { points.push(("VERIF_CRASH_AT", p)); }
-        let max_fz = if thorough { 120 } else { 24 };
+        let max_fz = if thorough { 120 } else { 15 };
         if n_fz <= max_fz { for p in 1..=n_fz { points.push(("VERIF_FREEZER_CRASH_AT", p)); } }
         else {
             let mut keep = BTreeSet::new();
